@@ -195,3 +195,16 @@ Definition c08_int_strict_ok (v : Z) (text : list Z) (parsed : option Z) : bool 
   | Some r => c08_int_ok v text r
   | None => false
   end.
+
+(* the shape of a rendered double at (clamped) precision p: [-]digits without redundant leading
+   zero; no point when p = 0, otherwise a point followed by 1..p digits *)
+Definition c08_shape_ok (p : Z) (t : list Z) : bool :=
+  match split_dec t with
+  | Some (_, ip, fp) =>
+    no_leading_zero ip &&
+    match fp with
+    | None => p =? 0
+    | Some fd => (1 <=? p) && (Z.of_nat (length fd) <=? p)
+    end
+  | None => false
+  end.
